@@ -492,6 +492,46 @@ def run(tier: str, seed: int) -> int:
                        f"the reference says {want!r}", {"story_source": src})
         chk.count(("escape", tuple(sfx), host), True)
 
+    # multi-line ~ statements (docs/spec.md: a statement continues while a bracket is open), at top level and inside
+    # @if / @for bodies at any indentation, with `//` as Python code (floor division, `//=`, inside a string literal)
+    # on the first and on continuation lines.  Reference: Python's own evaluation of the joined statement.
+    stats["multiline_stmt_cases"] = 0
+    for k in range(30 if tier == "quick" else 300):
+        r = random.Random(rng.randrange(10 ** 9))
+        a, b = r.randint(20, 200), r.randint(2, 9)
+        exprs = [("(", f"a // b", ")"), ("[", f"a // b,", f"a % b]"), ("(", f"a //", f"b)"), ("[", f"'x//y',", f"a // b]"),
+                 ("{", f"'k': a // b,", "'s': 'p // q'}"), ("(", f"(a // b)", f"+ (a // (b + 1)))")]
+        hosts = []
+        for hk in ("top", "if", "for", "if-in-for"):
+            o, l1, l2 = r.choice(exprs)
+            ind = {"top": "", "if": " " * r.choice([2, 4]), "for": " " * r.choice([2, 4]), "if-in-for": " " * 4}[hk]
+            cont = ind + " " * r.choice([0, 2, 4])
+            var = "v_" + hk.replace("-", "_")
+            lines = [f"{ind}~ {var} = {o}", f"{cont}{l1}", f"{cont}{l2}"]
+            expect = eval(f"{o}\n{l1}\n{l2}", {"a": a, "b": b})
+            hosts.append((hk, var, lines, expect))
+        body = [":: Start", f"~ a = {a}", f"~ b = {b}"] + hosts[0][2]
+        body += ["@if a > 0:"] + hosts[1][2] + ["@endif"]
+        body += ["@for i in [1]:"] + hosts[2][2] + ["@endfor"]
+        i3 = ["    " + l[4:] if l.startswith("    ") else l for l in hosts[3][2]]
+        body += ["@for i in [1]:", "  @if a > 0:"] + hosts[3][2] + ["  @endif", "@endfor"]
+        body += ["Values: " + " ".join("{" + h[1] + "}" for h in hosts), "+ [Go] -> Start"]
+        src = "\n".join(body)
+        want = "Values: " + " ".join(str(h[3]) for h in hosts) + "\n"
+        with C.quiet():
+            try:
+                st = BardCompiler().compile_string(src)
+                recs, _ = R.run_history(st, [])
+                got = recs[0]["view"]["raw_content"] if recs and recs[0]["view"] else repr(recs[0]["obs"]) if recs else None
+            except Exception as e:  # noqa
+                got = f"<{type(e).__name__}: {str(e)[:80]}>"
+        stats["multiline_stmt_cases"] += 1
+        if got != want:
+            chk.report("multi-line-statement-departs-from-python",
+                       f"a story whose ~ statements span several lines shows {got!r}; evaluating the same statements with Python "
+                       f"gives {want!r}", {"story_source": src})
+        chk.count(("mlstmt", src), True)
+
     try:
         for i in range(n_cases):
             sub = rng.randrange(10 ** 9)
